@@ -19,14 +19,14 @@ From HV Require Import lib.Harness model.Validity gen.RustTables.
 Local Open Scope string_scope.
 
 (* ------------------------------------------------------------------ helpers *)
-Fixpoint lookup {A} (k : string) (l : list (string * A)) : option A :=
+Fixpoint slookup {A} (k : string) (l : list (string * A)) : option A :=
   match l with
   | [] => None
-  | (k', v) :: r => if String.eqb k k' then Some v else lookup k r
+  | (k', v) :: r => if String.eqb k k' then Some v else slookup k r
   end.
 Definition smem (x : string) (l : list string) : bool := existsb (String.eqb x) l.
 
-Lemma lookup_In : forall A k (l : list (string * A)) v, lookup k l = Some v -> In (k, v) l.
+Lemma slookup_In : forall A k (l : list (string * A)) v, slookup k l = Some v -> In (k, v) l.
 Proof.
   induction l as [|[k' v'] r IH]; cbn; intros v H; [discriminate|].
   destruct (String.eqb k k') eqn:E.
@@ -49,16 +49,16 @@ Qed.
 Lemma forallb_flat_map : forall A B (h : A -> list B) (f : B -> bool) l,
   forallb f (flat_map h l) = forallb (fun x => forallb f (h x)) l.
 Proof. intros. induction l as [|x r IH]; cbn; [reflexivity|]. now rewrite forallb_app, IH. Qed.
-Lemma in_index_from : forall A (l : list A) k i x,
+Lemma rt_in_index_from : forall A (l : list A) k i x,
   In (i, x) (index_from l k) -> exists j, i = (k + N.of_nat j)%N /\ nth_error l j = Some x.
 Proof.
   induction l as [|a r IH]; intros k i x H; cbn in H; [contradiction|]. destruct H as [H|H].
   - injection H as <- <-. exists O. split; [cbn; lia|reflexivity].
   - apply IH in H as (j & -> & Hj). exists (S j). split; [lia|exact Hj].
 Qed.
-Lemma in_indexed : forall A (l : list A) i x, In (i, x) (indexed l) -> nthN l i = Some x.
+Lemma rt_in_indexed : forall A (l : list A) i x, In (i, x) (indexed l) -> nthN l i = Some x.
 Proof.
-  intros A l i x H. apply in_index_from in H as (j & -> & Hj). unfold nthN.
+  intros A l i x H. apply rt_in_index_from in H as (j & -> & Hj). unfold nthN.
   replace (N.to_nat (0 + N.of_nat j)) with j by lia. exact Hj.
 Qed.
 Lemma forallb_map' : forall A B (h : A -> B) (f : B -> bool) l, forallb f (map h l) = forallb (fun x => f (h x)) l.
@@ -66,7 +66,7 @@ Proof. intros. induction l as [|x r IH]; cbn; [reflexivity|]. now rewrite IH. Qe
 
 (* ================================================================== 1. the OpTag lattice *)
 (* immediate_supersets *)
-Definition imm (t : string) : list string := match lookup t rs_lattice with Some l => l | None => [] end.
+Definition imm (t : string) : list string := match slookup t rs_lattice with Some l => l | None => [] end.
 
 (* `a.is_superset(b)` of ops/tag.rs: equal, or a is a superset of one of b's immediate supersets.  The scanner pins the
    text of the Rust function; the recursion is on fuel here. *)
@@ -116,8 +116,8 @@ Proof. vm_compute. reflexivity. Qed.
 
 Lemma imm_in_tags : forall b p, In p (imm b) -> In p rs_tags.
 Proof.
-  intros b p H. unfold imm in H. destruct (lookup b rs_lattice) as [l|] eqn:E; [|contradiction].
-  apply lookup_In in E. pose proof lattice_wf as W. unfold lattice_wf_b in W.
+  intros b p H. unfold imm in H. destruct (slookup b rs_lattice) as [l|] eqn:E; [|contradiction].
+  apply slookup_In in E. pose proof lattice_wf as W. unfold lattice_wf_b in W.
   apply andb_true_iff in W as [_ W]. rewrite forallb_forall in W. specialize (W _ E). cbn [fst snd] in W.
   rewrite forallb_forall in W. apply smem_In. now apply W.
 Qed.
@@ -139,8 +139,8 @@ Qed.
 Lemma sup_complete : forall a, In a rs_tags -> forall b, Sup a b -> is_superset a b = true.
 Proof.
   intros a Ha b H. induction H as [|b p Hp _ IH]; [apply is_superset_refl|].
-  unfold imm in Hp. destruct (lookup b rs_lattice) as [l|] eqn:E; [|contradiction].
-  apply lookup_In in E. pose proof lattice_closed as C. unfold lattice_closed_b in C.
+  unfold imm in Hp. destruct (slookup b rs_lattice) as [l|] eqn:E; [|contradiction].
+  apply slookup_In in E. pose proof lattice_closed as C. unfold lattice_closed_b in C.
   rewrite forallb_forall in C. specialize (C a Ha). rewrite forallb_forall in C. specialize (C _ E). cbn [fst snd] in C.
   rewrite forallb_forall in C. specialize (C p Hp). rewrite IH in C. exact C.
 Qed.
@@ -234,21 +234,21 @@ Notation "'olet' x := a 'in' b" := (obind a (fun x => b)) (at level 200, x name,
 
 (* the row of an OpType variant: None as soon as one table lacks it *)
 Definition krow (k : string) : option rrow :=
-  olet a := lookup k rs_op_tag in
-  olet b := lookup k rs_allowed_children in
-  olet c := lookup k rs_allowed_first_child in
-  olet d := lookup k rs_allowed_second_child in
-  olet e := lookup k rs_requires_children in
-  olet f := lookup k rs_requires_dag in
-  olet g := lookup k rs_edge_check in
-  olet h := lookup k rs_children_check in
-  olet i := lookup k rs_has_signature in
-  olet si := lookup k rs_static_input in
-  olet so := lookup k rs_static_output in
-  olet oi := lookup k rs_other_input in
-  olet oo := lookup k rs_other_output in
-  olet ci := lookup k rs_non_df_in in
-  olet co := lookup k rs_non_df_out in
+  olet a := slookup k rs_op_tag in
+  olet b := slookup k rs_allowed_children in
+  olet c := slookup k rs_allowed_first_child in
+  olet d := slookup k rs_allowed_second_child in
+  olet e := slookup k rs_requires_children in
+  olet f := slookup k rs_requires_dag in
+  olet g := slookup k rs_edge_check in
+  olet h := slookup k rs_children_check in
+  olet i := slookup k rs_has_signature in
+  olet si := slookup k rs_static_input in
+  olet so := slookup k rs_static_output in
+  olet oi := slookup k rs_other_input in
+  olet oo := slookup k rs_other_output in
+  olet ci := slookup k rs_non_df_in in
+  olet co := slookup k rs_non_df_out in
   Some {| rw_tag := a; rw_allowed := b; rw_first := c; rw_second := d; rw_req_children := e; rw_req_dag := f;
           rw_edge_check := g; rw_check := h; rw_sig := i; rw_dfparent := smem k rs_dataflow_parents;
           rw_static_in := si; rw_static_out := so; rw_other_in := oi; rw_other_out := oo;
@@ -445,7 +445,7 @@ Proof.
   unfold r_child_tags in H. rewrite forallb_forall in H. specialize (H _ Hy). cbn [fst snd] in H.
   apply andb_true_iff in E as [E1 E2]. apply N.eqb_eq in E2. rewrite E2 in H.
   apply negb_true_iff in E1. rewrite E1 in H. cbn [orb] in H.
-  unfold op_of in H. rewrite (in_indexed _ _ _ _ Hi) in H. exact H.
+  unfold op_of in H. rewrite (rt_in_indexed _ _ _ _ Hi) in H. exact H.
 Qed.
 Theorem r_first_second_matches : forall g, r_child_tags g = true ->
   r_first_second g =
